@@ -1,7 +1,7 @@
 (* Evaluation of the server model on a correspondence case (see Model/ServerRender.v for the
    programmable handler, the policies and the rendering). *)
 From Coq Require Import NArith List Bool Arith String Ascii.
-From Rodbus Require Import Base.Outcome Base.Show Base.ServerTypes Base.ServerRun Model.Server Model.ServerRun Model.ServerRender.
+From Rodbus Require Import Base.Outcome Base.Show Base.ServerTypes Base.ServerRun Model.Retry Model.RtuServerLoop Model.Server Model.ServerRun Model.ServerRender.
 Import ListNotations.
 Local Open Scope N_scope.
 
@@ -33,3 +33,9 @@ Definition run_model_ev (c : ecase) : string :=
   let '(ws, _, log, _, e) := session_run prog l (auth_model a) (mkunits m hs) 0 evs in
   show_replies ws ++ "|" ++ show_log log ++ "|" ++ show_run_end (fun x => show_end (SError x)) e.
 Definition run_both_ev (c : ecase) : string := run_model_ev c ++ "#" ++ run_spec_ev c.
+
+Definition run_model_task (c : tcase) : string :=
+  let '(m, hs, mm, eps) := c in
+  let '(ws, _, log, _, _, e) := rtu_server_task prog (mkunits m hs) 0 (create (fst mm) (snd mm)) eps in
+  show_replies (List.concat ws) ++ "|" ++ show_log log ++ "|" ++ show_task_end e.
+Definition run_both_task (c : tcase) : string := run_model_task c ++ "#" ++ run_spec_task c.
